@@ -58,6 +58,7 @@ type TypeSpec struct {
 	Owned     map[string]string // field -> owner lock expression (informational)
 	SubObjects map[string]string // pointer fields to objects owned by this one: field -> lock that protects them
 	AtomicCell map[string]bool   // pointer fields whose pointee is accessed only through sync/atomic
+	Confined  map[string]bool   // fields of objects that are never shared between goroutines (configuration under construction)
 	PartOf    string            // the invariant is established as part of this owner type's invariant (audit)
 	Rely      map[string]*SExpr // field -> relation between `old` and `new` values allowed to other goroutines
 }
@@ -439,6 +440,16 @@ func (sp *Specs) parseFile(repo, file string) error {
 				}
 			} else if curF != nil {
 				curF.Atomic = true
+			}
+		case "confined":
+			if curT == nil {
+				return fmt.Errorf("%s:%d: confined outside type", file, pendingLine)
+			}
+			if curT.Confined == nil {
+				curT.Confined = map[string]bool{}
+			}
+			for _, f := range splitList(strings.TrimPrefix(rest, ":")) {
+				curT.Confined[f] = true
 			}
 		case "immutable":
 			if curT == nil {
